@@ -116,12 +116,14 @@ def run(ctx):
                 'string is rejected (an error is raised).')
     plans = [('k', pc.K_ATOMS, 3), ('default', pc.D_ATOMS, 3)] if quick else \
             [('k', pc.K_ATOMS, 4), ('default', pc.D_ATOMS, 4)]
+    pc.SOUP_VOLUME.update(num=200 if quick else 2000, nseeds=8 if quick else 16, seed=ctx.seed)
+    plans += [('k', pc.K_ATOMS, pc.SOUP + (9 if quick else 14)), ('default', pc.D_ATOMS, pc.SOUP + (9 if quick else 14))]
     for cname, atoms, K in plans:
         jobs = pc.export_jobs(atoms, cname, K, ['strict'], ['StrictErrorLocated', 'NoNonterm'],
                               payload=dict(sample_every=53 if quick else 503), timeout=6000)
-        m = common.run_shards(ctx, ('harness.c05', 'OutcomeConsumer'), jobs, what='ParseRun strict %s K=%d' % (cname, K))
+        m = common.run_shards(ctx, ('harness.c05', 'OutcomeConsumer'), jobs, what='ParseRun strict %s %s' % (cname, pc.kdesc(K)))
         ctx.add_merged(m)
-        ctx.log('%s K=%d: %d strings; %s' % (cname, K, m['n'], {k: v for k, v in m['counters'].items() if 'same' in k or 'dev' in k}))
+        ctx.log('%s %s: %d strings; %s' % (cname, pc.kdesc(K), m['n'], {k: v for k, v in m['counters'].items() if 'same' in k or 'dev' in k}))
         validate(ctx, m)
     # sensitivity controls: the as_implemented variants of the pinned defects must violate StrictErrorLocated
     for var, name in ((dict(vposnone='as_implemented'), 'error position None when nothing was collected'),
